@@ -197,3 +197,60 @@ def c_truthiness(ck, P, R="ATOM/c-truthiness"):
                           "true, and zlib-ng tests `if (%s)`" % (f.path, f.local_name(x[1]), c.callee.replace(Z, ""), mir.fmt(a, f)[:40],
                                                                  f.local_name(x[1])), where(f, c.line))
     ck.floor(R, n, 1)
+
+
+def arm_store_before_suspend(ck, P, fields=("adler",), R="ORDER/arm-store-before-suspend"):
+    """deflate(): inside an arm of the header state machine (`if status == X {..}`), a constant store to a stream/state field that
+    belongs to the transition is made before the arm can suspend: no branch *inside the arm, after the arm has stored its new status,* whose other side
+    leaves the function without passing the store stands before the store.  The arm is left with the new status already set, so
+    a store placed behind `if pending != 0 { return Ok }` is skipped for good when the header does not fit the output."""
+    f = P.fn(Z + "deflate::deflate")
+    if not ck.anchor("fn deflate::deflate", f):
+        return
+    ck.use_fn(f)
+    exits = {b for b, k in f.exits() if k == "return"}
+    n = 0
+    for bb, fp, root, rv, st in f.field_writes():
+        if not fp or str(fp[-1]) not in fields:
+            continue
+        v = f.const_of(rv if not isinstance(rv, dict) else f.rvalue_expr(rv))
+        if v is None:
+            continue
+        doms = f.dominators_of(bb)
+        # innermost dominating edge that tests `status`: the arm
+        arm_idx = None
+        for i, d in enumerate(doms):
+            if d[0] != "e":
+                continue
+            lab, tb = f.succ[d[1]][d[2]]
+            if lab is None or lab[0] == "const":
+                continue
+            if any(mir.mentions_field(p, "status") for a in f.edge_atoms(d[1], lab) for p in a[1:] if isinstance(p, tuple)):
+                arm_idx = i
+                break
+        if arm_idx is None:
+            continue
+        n += 1
+        bad = None
+        arm_edge = doms[arm_idx]
+        # blocks of the arm that store the new status
+        sblocks = {b2 for b2, fp2, _r, _v, _s in f.field_writes() if fp2 and str(fp2[-1]) == "status" and arm_edge in f.dominators_of(b2)}
+        for d in doms[:arm_idx]:
+            if d[0] != "e":
+                continue
+            b, k = d[1], d[2]
+            # only a branch taken after the arm has set its new status is a suspension of the finished transition
+            if not (b in sblocks or any(("b", sb) in f.dominators_of(b) for sb in sblocks)):
+                continue
+            for k2, (lab2, tb2) in enumerate(f.succ[b]):
+                if k2 == k:
+                    continue
+                reach = f.reach_from(tb2, block_ok=lambda x: x != bb)
+                if reach & exits:
+                    bad = f.blocks[b]["t"].get("line")
+        inst = "deflate:%s=%s#%d" % (fp[-1], v, n)
+        ck.decide(bad is None, R, inst, "stored before the arm can suspend",
+                  "deflate() stores `%s = %s` only behind a branch of the same header arm whose other side returns (line %s): when the "
+                  "header does not fit the output the arm is left with the new status set and the store never happens (the check "
+                  "value then starts from the dictionary's Adler-32 / a stale index)" % (fp[-1], v, bad), where(f, st.get("line") if isinstance(st, dict) else None))
+    ck.floor(R, n, 1)
